@@ -151,6 +151,16 @@ func Generate(seed uint64, id, family string) *sdl.Program {
 				p.Instances = append(p.Instances, &sdl.Instance{ID: fmt.Sprintf("c%d", n+3), Type: k.Name})
 			}
 		}
+		// a custom scanner that refuses the definition of some components, always: start-up
+		// must be refused whatever the schedule of the scanning phase
+		if r.p(0.07) && len(p.Duplicates()) == 0 && len(p.Instances) >= 3 {
+			p.Scanners = []*sdl.Scanner{{ID: "scan0", Tag: "simx"}}
+			for n := r.n(1, 2); n > 0; n-- {
+				if i := pick(r, p.Instances); !i.Contributed && !p.TypeByName(i.Type).Zero {
+					p.Refuse = append(p.Refuse, i.ID)
+				}
+			}
+		}
 		return p
 	case FamLarge:
 		k := wireKnobs(r)
